@@ -632,7 +632,7 @@ def run(chk, replay=None):
 
     # ------------------------------------------------------------------ circuits
     plan = []
-    ncirc = {'lap': 14, 'dc': 8, 'ac': 6, 'time': 4} if quick else {'lap': 400, 'dc': 200, 'ac': 120, 'time': 80}
+    ncirc = {'lap': 14, 'dc': 8, 'ac': 6, 'time': 4} if quick else {'lap': 180, 'dc': 90, 'ac': 60, 'time': 40}
     for a, k in ncirc.items():
         for i in range(k):
             plan.append(a)
@@ -765,7 +765,7 @@ def run(chk, replay=None):
         except Exception as e:   # noqa
             chk.count('lcapy-error', 'ss-P:%s' % type(e).__name__)
 
-    n_ss = 5 if quick else 120
+    n_ss = 5 if quick else 50
     tries = 0
     done = 0
     if rep is not None:
@@ -924,7 +924,7 @@ def run(chk, replay=None):
       check_tf('s', 'DCF', [sym.Integer(3), sym.Integer(0), sym.Integer(2), sym.Integer(5)],
              [sym.Integer(1), sym.Integer(7), sym.Integer(14), sym.Integer(8)], 'fixed-biproper')
     degs = [1, 2, 3, 4, 5, 6] if rep is None else []
-    n_tf = 1 if quick else 14
+    n_tf = 1 if quick else 8
     for dom in ('s', 'z'):
         for deg in degs:
             for rep in range(n_tf):
